@@ -465,6 +465,9 @@ def run_c04(c):
     add("c:warping_paths_fast", lambda: dtw.warping_paths_fast(a, b, **kw), True, False)
     add("c:warping_paths_fast[int,noneg]",
         lambda: dtw.warping_paths_fast(a, b, psi_neg=False, keep_int_repr=True, **kw), False, True)
+    # the same numbers as non-contiguous views (every second element of a larger array)
+    a2, b2 = series(c, "s1", "numpy_strided"), series(c, "s2", "numpy_strided")
+    add("c:warping_paths_fast[strided views]", lambda: dtw.warping_paths_fast(a2, b2, **kw), True, False)
     add("c:warping_paths[use_c]", lambda: dtw.warping_paths(a, b, use_c=True, **kw), True, False)
     add("c:warping_paths[use_c,int]", lambda: dtw.warping_paths(a, b, use_c=True, keep_int_repr=True, **kw),
         True, True)
